@@ -74,6 +74,18 @@ class _Abort(BaseException):
     cannot follow (e.g. a task resumed by a stale handle): stop the case, keep the findings."""
 
 
+class GuardFuture(asyncio.Future):
+    """A future whose cancel() can be made to refuse (return False) while it is still pending -
+    what asyncio.gather's outer future does once all its children are done but its own completion
+    is still queued."""
+    no_cancel = False
+
+    def cancel(self, msg=None):
+        if self.no_cancel and not self.done():
+            return False
+        return super().cancel(msg=msg)
+
+
 class _RawYield:
     def __init__(self, fut):
         self.fut = fut
@@ -177,6 +189,7 @@ class World:
         self.locks = [asyncio.Lock() for _ in range(2)]
         self.queues = [asyncio.Queue() for _ in range(2)]
         self.in_ext = set()
+        self.expect_cancel = set()
         self.explicit_pause = False
         self.cur_class = None
 
@@ -298,7 +311,7 @@ class World:
             for cb, _ctx in (f._callbacks or []):
                 c = self.classify(cb, ())
                 cbs.append(f"w{c[1]}" if c[0] == "w" else "k")
-            fs.append(f"{i}{st}" + ".".join(cbs))
+            fs.append(f"{i}{st}{'~' if f.no_cancel else ''}" + ".".join(cbs))
         re_s, re_set = self._api(ak.runnable_tasks, loop)
         be_s, be_set = self._api(ak.blocked_tasks, loop)
         ri_s, ri_set = self._api(ak.runnable_tasks)
@@ -404,8 +417,14 @@ class World:
             self.kinds.append(kind)
             self.emit(f"create {kind}", f"ok {wid}")
         elif op == "newfut":
-            self.futs.append(loop.create_future())
+            self.futs.append(GuardFuture(loop=loop))
             self.emit("newfut", f"ok {len(self.futs) - 1}")
+        elif op == "nocancel":
+            if not self.futs:
+                return
+            f = a[1] % len(self.futs)
+            self.futs[f].no_cancel = bool(a[2])
+            self.emit(f"nocancel {f} {int(bool(a[2]))}", "ok")
         elif op in ("setres", "setexc", "cancelfut", "addcb"):
             if not self.futs:
                 return
@@ -415,7 +434,7 @@ class World:
                 fut.add_done_callback(_noop)
                 self.emit(f"addcb {f}", "ok")
             else:
-                was = fut.done()
+                was = fut.done() or (op == "cancelfut" and fut.no_cancel)
                 try:
                     if op == "setres":
                         fut.set_result(None)
@@ -437,7 +456,11 @@ class World:
             task = self.tasks[t]
             if op == "cancel":
                 self.note_cancel(t)
+                was_blocked = self.ak.task_is_blocked(task)
                 r = task.cancel()
+                if r and was_blocked and task._must_cancel and task._fut_waiter is not None \
+                        and not task._fut_waiter.done():
+                    self.tags.add("cancel-refused-by-pending-future")
                 self.emit(f"cancel {t}", "ok" if r else "noop")
                 if r:
                     self.tags.add("cancel-self" if who == t else "cancel-task")
@@ -481,8 +504,15 @@ class World:
             out.append((st, tuple(id(c) for c in cbs)))
         return out
 
+    def skip_throw(self, task):
+        """C09 streams stay out of the window 'blocked with _must_cancel' (that is C15's business)."""
+        return (self.case.get("no_throw_on_blocked_cancel_pending") and not task.done()
+                and task._must_cancel and self.ak.task_is_blocked(task))
+
     def do_throw(self, t, cd, who):
         task = self.tasks[t]
+        if self.skip_throw(task):
+            return
         e = self.new_exc(cd)
         before = self.snapshot_others(t)
         pre = None
@@ -522,6 +552,12 @@ class World:
                                 "delivered": 0, "superseded": None})
             if self.expect_next is not None and self.expect_next[0] == t:
                 self.expect_next = None   # a later throw supersedes the interrupt
+            if task._must_cancel:
+                # only possible for a task blocked on a future that refused cancel()
+                self.problem("task_throw accepted a %s task with a pending cancellation (_must_cancel)"
+                             % ("blocked" if was_blocked else "runnable"), f"task {t} exc i{e.id}")
+                if not self.throws[-1]["cd"]:
+                    self.throws[-1]["superseded"] = "cancel"   # reported above, not twice
             self.tags.add("throw-on-blocked" if was_blocked else
                           ("throw-on-never-started" if t not in self.started else "throw-on-runnable"))
             # C15: the target is runnable now, exactly one handle, nothing registered
@@ -540,7 +576,24 @@ class World:
         else:
             self.throws.append({"id": e.id, "t": t, "cd": isinstance(e, IntrCancel), "ok": False,
                                 "delivered": 0, "superseded": None})
-            why = "done" if task.done() else ("self" if who == t else "pending-cancel")
+            fw = task._fut_waiter
+            if task.done():
+                why = "done"
+            elif who == t:
+                why = "self"
+            elif task._must_cancel or (fw is not None and fw.cancelled()):
+                why = "pending-cancel"
+                # the cancellation itself must still arrive: the next exception raised in the target is
+                # the CancelledError (unless an earlier CancelledError-derived interrupt is still queued,
+                # which Task.__step lets absorb the request)
+                if not any(th["t"] == t and th["ok"] and th["cd"] and not th["delivered"]
+                           and not th["superseded"] for th in self.throws):
+                    self.expect_cancel.add(t)
+            else:
+                why = "no-reason"
+                self.problem("task_throw / task_interrupt refused a target that is not done, not the caller "
+                             "and has no pending cancellation", f"task {t} cancelling="
+                             f"{getattr(task, 'cancelling', lambda: '?')()}")
             self.tags.add("throw-refused-" + why)
             if pre is not None:
                 post = self._quiet_obs()
@@ -562,9 +615,17 @@ class World:
                     self.tags.add("cancel-merged-into-cd-interrupt")
 
     # ------------------------------------------------------------------ worker bodies
+    def check_expected_cancel(self, wid, code):
+        if wid in self.expect_cancel:
+            self.expect_cancel.discard(wid)
+            if code != "C":
+                self.problem("task_throw refused for a pending cancellation, but the cancellation was lost",
+                             f"task {wid} got {code}")
+
     def deliver(self, wid, e):
         code = self.exc_code(e)
         self.log.append(f"{wid}:{code}")
+        self.check_expected_cancel(wid, code)
         if code.startswith("?"):
             # nothing in a worker raises this by itself: it came out of asynkit's machinery
             self.problem(f"task_throw / task_interrupt machinery raised {type(e).__name__}", repr(e)[:200])
@@ -639,7 +700,7 @@ class World:
             await self.do_interrupt(wid, t, bool(op[2]))
         elif k == "a":
             self.do_action(op[1], who=wid)
-        elif k in ("ev", "qget", "wsh", "lock"):
+        elif k in ("ev", "qget", "wsh", "lock", "gat"):
             # stdlib primitives may suspend several times internally (Queue.get loops)
             self.in_ext.add(wid)
             try:
@@ -665,6 +726,12 @@ class World:
                 return
             self.tags.add("await-shielded-future")
             await asyncio.shield(self.futs[op[1] % len(self.futs)])
+        elif k == "gat":
+            if not self.futs:
+                return
+            self.tags.add("await-gather")
+            fs = [self.futs[i % len(self.futs)] for i in op[1]]
+            await asyncio.gather(*fs, return_exceptions=bool(op[2]))
         elif k == "lock":
             self.tags.add("lock-section")
             async with self.locks[op[1] % 2]:
@@ -674,6 +741,8 @@ class World:
 
     async def do_interrupt(self, wid, t, cd):
         task = self.tasks[t]
+        if self.skip_throw(task):
+            return
         e = self.new_exc(cd)
         before = self.snapshot_others(t)
         pre = self._quiet_obs() if self.mode != "drain" else None
@@ -775,6 +844,7 @@ class World:
         if e is None:
             raise HarnessBug("never-started task finished without exception")
         self.log.append(f"{t}:{self.exc_code(e)}")
+        self.check_expected_cancel(t, self.exc_code(e))
         if isinstance(e, (IntrPlain, IntrCancel)):
             for th in self.throws:
                 if th["id"] == e.id:
